@@ -510,7 +510,7 @@ class _HttpState:
             raise RuntimeError("on_cancel boom")
 
 
-def _stub_recover(app, token, call_token, state_info, auth):  # type: ignore[no-untyped-def]
+def _stub_recover(app, token, call_token, state_info, auth, *rest):  # type: ignore[no-untyped-def]
     """Ideal-AEAD contract: the presented cursor token opens to the state the server minted."""
     if token != b"TOKEN":
         raise HarnessModelError("unexpected token")
